@@ -97,6 +97,11 @@ IDENTITY_CALLS = {
     # value-preserving on the success side: `x.map_err(f)?` still denotes x's Ok payload
     'std::ops::Try::branch': 0,
     'std::result::Result::map_err': 0,
+    # the payload flows through (or the call diverges)
+    'std::option::Option::unwrap': 0,
+    'std::option::Option::expect': 0,
+    'std::result::Result::unwrap': 0,
+    'std::result::Result::expect': 0,
 }
 
 CLOSURE_CALLS = ('std::ops::FnOnce::call_once', 'std::ops::FnMut::call_mut', 'std::ops::Fn::call')
@@ -490,6 +495,43 @@ class Body:
         if len(_seen) == 1 and live is None:
             self._orig_cache[l] = res
         return res
+
+    def forward_calls(self, local, through=()):
+        """Forward slice by locals: calls that receive `local` (or a copy/ref/cast of it, or the result
+        of a call in `through` applied to it) as an argument. Returns [(call, arg_index)] in discovery order."""
+        seen = set()
+        work = [local]
+        out = []
+        while work:
+            l = work.pop()
+            if l in seen:
+                continue
+            seen.add(l)
+            for i, b in enumerate(self.blocks):
+                if b['cleanup']:
+                    continue
+                for s in b['stmts']:
+                    if s['k'] != 'a' or s['p']['p']:
+                        continue
+                    rv = s['rv']
+                    src = None
+                    if rv['k'] in ('use', 'cast'):
+                        op = self.facts.operand(rv['op'])
+                        if op[0] in ('c', 'm'):
+                            src = op[1][0]
+                    elif rv['k'] in ('ref', 'rawptr'):
+                        src = rv['pl']['l']
+                    if src == l:
+                        work.append(s['p']['l'])
+                c = self.calls.get(i)
+                if c is None:
+                    continue
+                for ai, a in enumerate(c.args):
+                    if a[0] in ('c', 'm') and a[1][0] == l:
+                        out.append((c, ai))
+                        if c.qname in through and not c.dest[1]:
+                            work.append(c.dest[0])
+        return out
 
     def origin_calls(self, origins):
         """The Call objects among a set of origins (ignoring projections)."""
